@@ -285,6 +285,9 @@ def _unfollowed_helpers(ctx):
     if not new:
         return
     rx = re.compile(r"\b(%s)\(" % "|".join(sorted(map(re.escape, new))))
+    # where the new helpers are: a finding INSIDE one whose evidence ends at one of the helper's parameters was not traced to the callers
+    spans = [(f.file, f.line, f.d.get("endline", f.line), f) for f in ctx.prog.fns.values()
+             if f.file.startswith("oomd/") and f.kind in ("function", "method") and f.name in new and not f.d.get("inlined_into")]
     for o in ctx.obs:
         if o.status != "violated" or any(x in (o.rule or "") for x in _INTERPROCEDURAL):
             continue
@@ -293,6 +296,17 @@ def _unfollowed_helpers(ctx):
         if m:
             o.status = "broken"
             o.msg = "cannot be decided: what the rule found goes through the new helper %s(), which it does not follow - %s" % (m.group(1), o.msg)
+            continue
+        ml = re.match(r"^(.*?):(\d+)", o.loc or "")
+        if not ml:
+            continue
+        for file_, a_, b_, hf in spans:
+            if ml.group(1) == file_ and a_ <= int(ml.group(2)) <= b_:
+                pn = [p_["name"] for p_ in hf.params if re.search(r"\bparam:%s\b" % re.escape(p_["name"]), text)]
+                if pn:
+                    o.status = "broken"
+                    o.msg = "cannot be decided: the finding lies inside the new helper %s() and ends at its parameter(s) %s, which the rule does not trace to the callers - %s" % (hf.name, ", ".join(pn), o.msg)
+                break
 
 
 def main(argv):
